@@ -88,8 +88,11 @@ def run_template(job):
                 return fn(c, **t['params'])
             finally:
                 da.rcParams.update(saved_opts)
-        res = eng.explore(harness, deadline_s=job.get('deadline', 60), max_paths=job.get('max_paths', 500000),
-                          witness_cap=job.get('witness_cap', 4))
+        import io
+        import contextlib
+        with contextlib.redirect_stdout(io.StringIO()):      # the library prints diagnostics on some error paths
+            res = eng.explore(harness, deadline_s=job.get('deadline', 60), max_paths=job.get('max_paths', 500000),
+                              witness_cap=job.get('witness_cap', 4))
         out.update(status=res['status'], paths=res['paths'], verified=res['verified'], vacuous=res['vacuous'],
                    aborted=res['aborted'], reasons=res['abort_reasons'],
                    forks=eng.stats['forks'], decisions=eng.stats['decisions'],
